@@ -5,10 +5,11 @@
 set -u
 SD=$1; PROP=$2; shift 2
 export GOFLAGS=-mod=mod GOPROXY=off GOSUMDB=off GOTOOLCHAIN=local; unset GOWORK
-WT=/tmp/wt-seedcheck
+WT=/tmp/wt-seedcheck-$$; L=/tmp/seedchk-$$
+BASE=${SEED_BASE:-HEAD}; BIN=${SEED_BIN:-/verif/bin/verifcheck}
 git -C /repo worktree remove --force $WT >/dev/null 2>&1
-git -C /repo worktree add -q --detach $WT HEAD || exit 2
-trap 'git -C /repo worktree remove --force $WT >/dev/null 2>&1' EXIT
+git -C /repo worktree add -q --detach $WT $BASE || exit 2
+trap 'git -C /repo worktree remove --force $WT >/dev/null 2>&1; rm -f $L-*.log' EXIT
 DEMO=$(ls $SD/*_test.go | head -1)
 PKG=$(head -3 $DEMO | grep -o 'Copy into:\? *[^ ]*' | head -1 | sed 's/Copy into:\? *//'); PKG=${PKG%/}
 # fallback: the package directory of the go test command quoted in the header (… ./tsdb/)
@@ -19,31 +20,31 @@ echo "seed=$SD pkg=$PKG run=$RUN"
 if ! git -C $WT apply --check $SD/patch.diff 2>/dev/null; then echo "RESULT patch-does-not-apply-at-HEAD"; exit 3; fi
 cp $DEMO $WT/$PKG/zz_seed_demo_test.go
 for attempt in 1 2 3 4; do
-( cd $WT && go test -vet=off -count=1 -run "$RUN" ./$PKG/ >/tmp/seed-a.log 2>&1 ); A=$?
-grep -q "address already in use" /tmp/seed-a.log || break
+( cd $WT && go test -vet=off -count=1 -run "$RUN" ./$PKG/ >$L-a.log 2>&1 ); A=$?
+grep -q "address already in use" $L-a.log || break
 sleep 15
 done
 git -C $WT apply $SD/patch.diff
-( cd $WT && go test -vet=off -count=1 -run "$RUN" ./$PKG/ >/tmp/seed-b.log 2>&1 ); B=$?
+( cd $WT && go test -vet=off -count=1 -run "$RUN" ./$PKG/ >$L-b.log 2>&1 ); B=$?
 rm $WT/$PKG/zz_seed_demo_test.go
 TOUCHED=$(git -C $WT diff --name-only | xargs -n1 dirname | sort -u | sed 's#^#./#; s#$#/#')
 for attempt in 1 2 3 4; do
-( cd $WT && go build ./... >/tmp/seed-c.log 2>&1 && go test -vet=off -count=1 $TOUCHED "$@" >>/tmp/seed-c.log 2>&1 ); C=$?
-grep -q "address already in use" /tmp/seed-c.log || break
+( cd $WT && go build ./... >$L-c.log 2>&1 && go test -vet=off -count=1 $TOUCHED "$@" >>$L-c.log 2>&1 ); C=$?
+grep -q "address already in use" $L-c.log || break
 sleep 20
 done
 echo "demo-without-patch-exit=$A (want 0) demo-with-patch-exit=$B (want !=0) existing-tests-with-patch-exit=$C (want 0)"
-[ $C -ne 0 ] && tail -20 /tmp/seed-c.log
+[ $C -ne 0 ] && tail -20 $L-c.log
 # run the check against the change: in /repo (default), or with SEED_NOREPO=1 against the scratch worktree with a
 # scratch evidence directory so that a background batch never touches /repo or /verif/evidence
 if [ "${SEED_NOREPO:-0}" = 1 ]; then
-  SV=/tmp/seedverif-$$; mkdir -p $SV/evidence $SV/bin; cp /verif/known_findings.json $SV/; cp /verif/bin/verifcheck $SV/bin/
-  ( cd $SV && ./bin/verifcheck -property $PROP -tier quick -repo $WT -verif $SV > /tmp/seed-check.log 2>&1 ); D=$?
+  SV=/tmp/seedverif-$$; mkdir -p $SV/evidence $SV/bin; cp /verif/known_findings.json $SV/; cp $BIN $SV/bin/verifcheck
+  ( cd $SV && ./bin/verifcheck -property $PROP -tier quick -repo $WT -verif $SV > $L-check.log 2>&1 ); D=$?
   rm -rf $SV
 else
 git -C /repo apply $SD/patch.diff || { echo "cannot apply to /repo"; exit 3; }
-( cd /verif && ./check.sh $PROP quick > /tmp/seed-check.log 2>&1 ); D=$?
+( cd /verif && ./check.sh $PROP quick > $L-check.log 2>&1 ); D=$?
 git -C /repo checkout -- .
 fi
-grep -E "^  rule=|VIOLATION|KNOWN" /tmp/seed-check.log | grep -v KNOWN | head -8
+grep -E "^  rule=|VIOLATION|KNOWN" $L-check.log | grep -v KNOWN | head -8
 echo "RESULT valid=$([ $A -eq 0 ] && [ $B -ne 0 ] && [ $C -eq 0 ] && echo yes || echo no) detected=$([ $D -eq 1 ] && echo yes || echo no) check-exit=$D"
